@@ -195,12 +195,14 @@ struct Pipe {
     log: TapLog,
     limits: Limits,
     flag: Option<Arc<Flag>>,
+    own: Arc<Flag>,
     ntaps: usize,
 }
 
 #[derive(Default)]
 struct Ctx {
     pipes: BTreeMap<i64, Pipe>,
+    reuse_wakers: bool,
     src: Source,
 }
 
@@ -229,7 +231,7 @@ fn make_pipe(src: &Source, desc: &Value) -> (Pipe, Value) {
     // untapped boundaries are logged as [] with a marker list
     let tapped: Vec<i64> = inits.iter().map(|v| if v.is_null() { 0 } else { 1 }).collect();
     let inits: Vec<Value> = inits.into_iter().map(|v| if v.is_null() { json!([]) } else { v }).collect();
-    (Pipe { stream, log, limits, flag: None, ntaps }, json!({"inits": inits, "tapped": tapped}))
+    (Pipe { stream, log, limits, flag: None, own: Flag::new(), ntaps }, json!({"inits": inits, "tapped": tapped}))
 }
 
 impl Ctx {
@@ -259,7 +261,8 @@ impl Ctx {
             "Poll" => {
                 let p = self.pipes.get_mut(&s).expect("pipe");
                 let wk = p.flag.as_ref().map(|f| f.is_set());
-                let flag = Flag::new();
+                let flag = if self.reuse_wakers { p.own.clone() } else { Flag::new() };
+                flag.clear();
                 let waker = waker_of(&flag);
                 let mut cx = Context::from_waker(&waker);
                 for t in p.log.borrow_mut().iter_mut() {
@@ -292,7 +295,8 @@ pub fn run_behaviour(tr: &Tracer, run: i64, ops: &[Value]) {
     let cap = geti(first, "i");
     let init = getvs(first, "vs");
     set_fresh(1);
-    let mut cx = Ctx { src: Source::new(cap, false), ..Default::default() };
+    // driver policy (field v of the first record): bit 0 = poll a pipe always with the same waker
+    let mut cx = Ctx { src: Source::new(cap, false), reuse_wakers: geti(first, "v") & 1 != 0, ..Default::default() };
     if !init.is_empty() {
         cx.src.vec.as_mut().unwrap().append(init.iter().map(|v| Elem::new(*v)).collect());
     }
